@@ -9,6 +9,7 @@ CONSTANTS
   Boxes <- BoxesL
   KConv = 1000
   KConvX = 10
+  KGap = 100
 INVARIANTS TypeOK Budget
 PROPERTY Terminates
 CHECK_DEADLOCK FALSE
